@@ -406,4 +406,261 @@ theorem collect_wf (c : Cfg) (g : GoodCfg c) (r : Reg) (L : Ledger) (hwf : WF c 
   · exact List.Nodup.sublist (List.Sublist.map _ List.filter_sublist) hwf.nodup
   · rw [hrun, hmeta1.running, hmeta0.running]
 
+theorem mem_ledger_of_core {c : Cfg} {r : Reg} {L : Ledger} (h : Core c r L noMark) (p : Nat) :
+    Present r.slots p ↔ p ∈ L.map Prod.fst := by
+  constructor
+  · rintro ⟨i, hi, e, he, hk⟩
+    have := ((h.ents e).1 ⟨i, hi, he⟩).1
+    rw [← hk]; exact List.mem_map.2 ⟨_, this, rfl⟩
+  · intro hp
+    obtain ⟨⟨q, b⟩, hqb, hq⟩ := List.mem_map.1 hp
+    simp only at hq; subst hq
+    obtain ⟨i, hi, he⟩ := (h.ents ⟨q, hashOf c q % r.n, ⟨b, false⟩⟩).2 ⟨hqb, rfl, rfl⟩
+    exact ⟨i, hi, _, he, rfl⟩
+
+/-- **GC_Set** (collector running, address not live, plain destructors) -/
+theorem gcSet_wf (c : Cfg) (g : GoodCfg c) (r : Reg) (L : Ledger) (hwf : WF c r L) (p : Nat) (root : Bool) (marks : List Nat)
+    (hrun : r.running = true) (hfresh : p ∉ L.map Prod.fst) (hal : p % 8 = 0) :
+    ∃ r' t, gcSet c noK r p root marks = some (r', t) ∧
+      WF c r' (if r.nitems + 1 > r.mitems then ((p, root) :: L).filter (fun x => x.2 || marks.contains x.1) else (p, root) :: L) ∧
+      r'.running = true := by
+  have core0 : Core c { r with nitems := r.nitems + 1, maxptr := if p > r.maxptr then p else r.maxptr,
+                               minptr := if p < r.minptr then p else r.minptr } L noMark := hwf.core.of_slots rfl HEq.rfl
+  obtain ⟨r1, hr1, hmeta1, hcore1, hocc1, hroom1⟩ := resizeMore_spec c g _ L core0
+    (show r.nitems + 1 = occ r.slots + 1 by rw [hwf.count])
+  have hni1 : r1.nitems = r.nitems + 1 := hmeta1.nitems
+  have hocc1' : occ r1.slots = occ r.slots := hocc1
+  have hfresh1 : ∀ q (hq : q < r1.n) e, r1.slots[q] = some e → e.key ≠ p := by
+    intro q hq e he hk
+    apply hfresh
+    have := ((hcore1.ents e).1 ⟨q, hq, he⟩).1
+    rw [← hk]; exact List.mem_map.2 ⟨_, this, rfl⟩
+  obtain ⟨s, hs, invs, mems, occs⟩ := setPtr_spec c r1.slots hcore1.inv p root hfresh1
+    (by rw [hocc1', ← hwf.count]; omega)
+  have wf2 : WF c { r1 with slots := s } ((p, root) :: L) := by
+    refine ⟨⟨invs, ?_⟩, ?_, Or.inl hroom1, ⟨?_, ?_, ?_⟩, ?_, ?_⟩
+    · intro e
+      show Mem s e ↔ _
+      rw [mems e]
+      constructor
+      · rintro (h | h)
+        · obtain ⟨a, b, d⟩ := (hcore1.ents e).1 h
+          exact ⟨List.mem_cons_of_mem _ a, b, d⟩
+        · subst h; exact ⟨List.mem_cons_self, rfl, rfl⟩
+      · rintro ⟨a, b, d⟩
+        rcases List.mem_cons.1 a with h | h
+        · right
+          have h1 : e.key = p := congrArg Prod.fst h
+          have h2 : e.val.root = root := congrArg Prod.snd h
+          exact ent_eta e _ _ _ _ h1 (by rw [d, h1]) h2 b
+        · exact Or.inl ((hcore1.ents e).2 ⟨h, b, d⟩)
+    · show r1.nitems = occ s
+      rw [occs, hocc1', hni1, hwf.count]
+    · intro q b hq
+      show r1.minptr ≤ q ∧ q ≤ r1.maxptr
+      rw [hmeta1.minptr, hmeta1.maxptr]
+      show (if p < r.minptr then p else r.minptr) ≤ q ∧ q ≤ (if p > r.maxptr then p else r.maxptr)
+      rcases List.mem_cons.1 hq with h | h
+      · have : q = p := congrArg Prod.fst h
+        subst this
+        constructor <;> split <;> omega
+      · have := hwf.bounded.bounds q b h
+        constructor <;> split <;> omega
+    · intro q b hq
+      rcases List.mem_cons.1 hq with h | h
+      · have : q = p := congrArg Prod.fst h
+        rw [this]; exact hal
+      · exact hwf.bounded.aligned q b h
+    · intro h0
+      have : r1.n = 0 := h0
+      omega
+    · show (p :: L.map Prod.fst).Nodup
+      exact List.nodup_cons.2 ⟨hfresh, hwf.nodup⟩
+    · show r1.pending = #[]
+      rw [hmeta1.pending]; exact hwf.pend
+  have hrun2 : ({ r1 with slots := s } : Reg).running = true := by
+    show r1.running = true; rw [hmeta1.running]; exact hrun
+  have hth : (({ r1 with slots := s } : Reg).nitems > ({ r1 with slots := s } : Reg).mitems) ↔ r.nitems + 1 > r.mitems := by
+    show r1.nitems > r1.mitems ↔ _
+    rw [hni1, hmeta1.mitems]
+  have hnr : (!r.running) = false := by rw [hrun]; rfl
+  unfold gcSet
+  rw [hnr]
+  simp only [Bool.false_eq_true, if_false]
+  rw [hr1]; simp only []
+  rw [hs]; simp only []
+  by_cases h : r.nitems + 1 > r.mitems
+  · rw [if_pos (hth.2 h), if_pos h]
+    obtain ⟨ra, r', t, hra, hsw, hwf', hrun'⟩ := collect_wf c g _ _ wf2 true marks
+    simp only [if_true] at hra
+    rw [hra]
+    exact ⟨r', t, hsw, hwf', by rw [hrun']; exact hrun2⟩
+  · rw [if_neg (fun h' => h (hth.1 h')), if_neg h]
+    exact ⟨_, [], rfl, wf2, hrun2⟩
+
+theorem filter_ne_self (L : Ledger) (x : Nat) (h : x ∉ L.map Prod.fst) : L.filter (fun y => y.1 != x) = L := by
+  apply List.filter_eq_self.2
+  intro y hy
+  simp only [bne_iff_ne, ne_eq]
+  intro heq; apply h; rw [← heq]; exact List.mem_map.2 ⟨y, hy, rfl⟩
+
+/-- **GC_Rem_Ptr** up to its final `dealloc(destruct(…))` -/
+theorem remPtr_wf (c : Cfg) (r : Reg) (L : Ledger) (hwf : WF c r L) (x : Nat) :
+    ∃ r1 fi, remPtr c r x = some (r1, fi) ∧ Core c r1 (L.filter (fun y => y.1 != x)) noMark ∧ r1.nitems = occ r1.slots ∧
+      Room r1 ∧ r1.n = r.n ∧ r1.mitems = r.mitems ∧ r1.minptr = r.minptr ∧ r1.maxptr = r.maxptr ∧ r1.running = r.running ∧
+      r1.pending = #[] ∧ (fi = none ∨ fi = some x) := by
+  unfold remPtr
+  rcases Nat.eq_zero_or_pos r.n with h0 | hn
+  · rw [dif_neg (by omega)]
+    have hx : x ∉ L.map Prod.fst := by
+      intro hx
+      obtain ⟨i, hi, _⟩ := (mem_ledger_of_core hwf.core x).2 hx
+      omega
+    rw [filter_ne_self L x hx]
+    exact ⟨r, none, rfl, hwf.core, hwf.count, hwf.room, rfl, rfl, rfl, rfl, rfl, hwf.pend, Or.inl rfl⟩
+  · rw [dif_pos hn]
+    simp only [hwf.pend, Array.findIdx?_empty]
+    obtain ⟨z, hz, hze⟩ := empty_of_room r hwf.count hn hwf.room
+    have inv : Inv (hashOf c) r.slots := hwf.core.inv.toInv z hz hze
+    obtain ⟨⟨res, hres⟩, hfound, hnone⟩ := find_correct (hashOf c) r.slots inv hn x
+    rw [hres]
+    cases res with
+    | none =>
+      have hx : x ∉ L.map Prod.fst := fun hx => hnone hres ((mem_ledger_of_core hwf.core x).2 hx)
+      rw [filter_ne_self L x hx]
+      exact ⟨r, none, rfl, hwf.core, hwf.count, hwf.room, rfl, rfl, rfl, rfl, rfl, hwf.pend, Or.inl rfl⟩
+    | some i =>
+      obtain ⟨e, he, hk⟩ := hfound i hres
+      obtain ⟨s', hs', inv', hz', hmem', hocc', _⟩ := eraseAt_spec (hashOf c) r.slots hwf.core.inv i.1 i.2 e he z hz hze
+      simp only [hs']
+      refine ⟨_, some x, rfl, ⟨inv', ?_⟩, ?_, Or.inl ?_, rfl, rfl, rfl, rfl, rfl, rfl, Or.inr rfl⟩
+      · intro e'
+        show Mem s' e' ↔ _
+        rw [hmem' e', hwf.core.ents e', List.mem_filter]
+        constructor
+        · rintro ⟨⟨a, b, d⟩, hne⟩
+          refine ⟨⟨a, ?_⟩, b, d⟩
+          simp only [bne_iff_ne, ne_eq]
+          intro hkx
+          obtain ⟨q, hq, hq'⟩ := (hwf.core.ents e').2 ⟨a, b, d⟩
+          have := hwf.core.inv.distinct q i.1 hq i.2 e' e hq' he (by rw [hkx, hk])
+          subst this
+          rw [he] at hq'; cases hq'; exact hne rfl
+        · rintro ⟨⟨a, hne⟩, b, d⟩
+          refine ⟨⟨a, b, d⟩, ?_⟩
+          intro heq; subst heq
+          simp only [bne_iff_ne, ne_eq] at hne
+          exact hne hk
+      · show r.nitems - 1 = occ s'
+        rw [hwf.count]; omega
+      · show r.nitems - 1 < r.n
+        rcases hwf.room with h | h <;> omega
+
+theorem exec_rem_succ (c : Cfg) (K : Nat → List Nat) (f : Nat) (r : Reg) (x : Nat) :
+    exec c K (f+1) r (.rem x) =
+      if !r.running then some (r, [])
+      else
+        match remPtr c r x with
+        | none => none
+        | some (r1, fi) =>
+          match (match fi with
+                 | none => some (r1, [])
+                 | some p => exec c K f r1 (.fin p)) with
+          | none => none
+          | some (r2, t) =>
+            match resizeLess c r2 with
+            | none => none
+            | some r3 => some ({ r3 with mitems := c.mitemsOf r3.nitems }, t) := by
+  rw [exec]; rfl
+
+/-- **GC_Rem** (collector running, plain destructors) -/
+theorem gcRem_wf (c : Cfg) (g : GoodCfg c) (r : Reg) (L : Ledger) (hwf : WF c r L) (x : Nat) (hrun : r.running = true) :
+    ∃ r' t, gcRem c noK r x = some (r', t) ∧ WF c r' (L.filter (fun y => y.1 != x)) ∧ r'.running = true := by
+  obtain ⟨r1, fi, hrem, hcore1, hc1, hroom1, hn1, hmi1, hmin1, hmax1, hrun1, hpend1, hfi⟩ := remPtr_wf c r L hwf x
+  obtain ⟨r3, hr3, hmeta3, hcore3, hocc3, hroom3, hz3⟩ := resizeLess_spec c g r1 _ hcore1 hc1 hroom1
+  have hfuel : nestFuel r = (2 * (r.nitems + r.pending.size) + 2) + 1 + 1 := by unfold nestFuel; omega
+  refine ⟨{ r3 with mitems := c.mitemsOf r3.nitems }, fi.toList, ?_, ⟨hcore3.of_slots rfl HEq.rfl, ?_, hroom3, ⟨?_, ?_, ?_⟩, ?_, ?_⟩, ?_⟩
+  · unfold gcRem
+    have hnr : (!r.running) = false := by rw [hrun]; rfl
+    rw [hfuel, exec_rem_succ, hnr]
+    simp only [Bool.false_eq_true, if_false]
+    rw [hrem]; simp only []
+    rcases hfi with h | h <;> subst h <;> simp only [exec_fin_noK, hr3, Option.toList]
+  · show r3.nitems = occ r3.slots
+    rw [hmeta3.nitems, hocc3]; exact hc1
+  · intro p b hp
+    show r3.minptr ≤ p ∧ p ≤ r3.maxptr
+    rw [hmeta3.minptr, hmeta3.maxptr, hmin1, hmax1]
+    exact hwf.bounded.bounds p b (List.mem_filter.1 hp).1
+  · intro p b hp; exact hwf.bounded.aligned p b (List.mem_filter.1 hp).1
+  · intro h0
+    show r3.minptr = uintptrMax ∧ r3.maxptr = 0
+    rw [hmeta3.minptr, hmeta3.maxptr, hmin1, hmax1]
+    exact hwf.bounded.zero (by rw [← hn1]; exact hz3 h0)
+  · exact List.Nodup.sublist (List.Sublist.map _ List.filter_sublist) hwf.nodup
+  · show r3.pending = #[]
+    rw [hmeta3.pending]; exact hpend1
+  · show r3.running = true
+    rw [hmeta3.running, hrun1]; exact hrun
+
+/-- `mem` under `WF`: exactly the ledger's addresses -/
+theorem wf_mem (c : Cfg) (r : Reg) (L : Ledger) (hwf : WF c r L) (p : Nat) :
+    memPtr c r p = some (decide (p ∈ L.map Prod.fst)) := by
+  unfold memPtr
+  rcases Nat.eq_zero_or_pos r.n with h0 | hn
+  · rw [dif_neg (by omega)]
+    have hx : p ∉ L.map Prod.fst := by
+      intro hx
+      obtain ⟨i, hi, _⟩ := (mem_ledger_of_core hwf.core p).2 hx
+      omega
+    simp [hx]
+  · rw [dif_pos hn]
+    obtain ⟨z, hz, hze⟩ := empty_of_room r hwf.count hn hwf.room
+    have inv : Inv (hashOf c) r.slots := hwf.core.inv.toInv z hz hze
+    have hl := lookup_correct (hashOf c) r.slots inv hn p
+    by_cases hp : p ∈ L.map Prod.fst
+    · rw [hl.1.2 ((mem_ledger_of_core hwf.core p).2 hp)]; simp [hp]
+    · rw [hl.2.2 (fun h => hp ((mem_ledger_of_core hwf.core p).1 h))]; simp [hp]
+
+theorem length_filterMap_key (l : List (Option Ent)) :
+    (l.filterMap (fun o => o.map (fun e => e.key))).length = l.countP Option.isSome := by
+  induction l with
+  | nil => rfl
+  | cons a l ih => cases a <;> simp [ih]
+
+/-- the number of occupied slots is the number of ledger items -/
+theorem wf_count (c : Cfg) (r : Reg) (L : Ledger) (hwf : WF c r L) : r.nitems = L.length := by
+  rw [hwf.count]
+  have h1 : (r.slots.toList.filterMap (fun o => o.map (fun e => e.key))).length = occ r.slots := by
+    rw [length_filterMap_key]; unfold occ; simp
+  have h2 : (r.slots.toList.filterMap (fun o => o.map (fun e => e.key))).Nodup := by
+    unfold List.Nodup
+    rw [List.pairwise_filterMap]
+    refine List.Pairwise.imp ?_ (pairwise_toList _ _ hwf.core.inv)
+    intro a b hab ka hka kb hkb
+    cases a with
+    | none => simp at hka
+    | some ea =>
+      cases b with
+      | none => simp at hkb
+      | some eb =>
+        simp at hka hkb
+        rw [← hka, ← hkb]; exact hab ea eb rfl rfl
+  have h3 : ∀ p, p ∈ r.slots.toList.filterMap (fun o => o.map (fun e => e.key)) ↔ p ∈ L.map Prod.fst := by
+    intro p
+    rw [← mem_ledger_of_core hwf.core p, List.mem_filterMap]
+    constructor
+    · rintro ⟨o, ho, hk⟩
+      cases o with
+      | none => simp at hk
+      | some e =>
+        simp at hk
+        obtain ⟨i, hi, he⟩ := (mem_toList_iff_Mem _ _).1 ho
+        exact ⟨i, hi, e, he, hk⟩
+    · rintro ⟨i, hi, e, he, hk⟩
+      exact ⟨some e, (mem_toList_iff_Mem _ _).2 ⟨i, hi, he⟩, by simp [hk]⟩
+  have := ((List.perm_ext_iff_of_nodup h2 hwf.nodup).2 h3).length_eq
+  rw [h1, List.length_map] at this
+  exact this
+
 end Cello.Registry
